@@ -551,6 +551,7 @@ impl Engine for CompileDeterminism {
     }
 
     fn execute(&self, t: &mut Trace, stats: &mut Stats) -> Verdict {
+        let _ = (corpus::corpus(), pool());
         // references first (quiet world)
         let mut refs: HashMap<u64, JobOut> = HashMap::new();
         for j in t.prior.iter().chain(t.tasks.iter().flatten()) {
